@@ -42,7 +42,7 @@
     more than one membership change in progress in a shard. *)
 From stdpp Require Import gmap.
 From Drummer.Model Require Import DB Sched Fleet FleetRun FleetExample FleetRounds.
-From Drummer.Proofs Require Import DBTimeProofs FleetProofs FleetLiveProofs FleetHealProofs FleetMendProofs FleetMendAProofs.
+From Drummer.Proofs Require Import DBTimeProofs FleetProofs FleetLiveProofs FleetHealProofs FleetMendProofs FleetMendAProofs FleetMendBProofs.
 Local Open Scope N_scope.
 
 (** * (i) the invariant of all executions *)
@@ -365,6 +365,60 @@ Print Assumptions C01_mend_checked.
 Theorem C01_menda_checked : forall st, LoopInv st -> menda_restb st = true -> MendA st.
 Proof. exact menda_restb_sound. Qed.
 Print Assumptions C01_menda_checked.
+
+(** ** the round in which a membership change is applied (FleetMendBProofs.v)
+    [MendB]: as MendA, except that ADD / DELETE requests with a CURRENT fence may be pending (in Requests or in a
+    NodeHost queue; the copies Drummer keeps in Outgoing are unconstrained - they are replaced at the NodeHost's next
+    report and nothing is delivered from them in a healthy round).  Such a LIVE request q, pending for NodeHost a:
+      - its fence is the current membership version of its shard, which is also the version of Drummer's view, and every
+        member the view shows has reported; a is a NodeHost; the shard id is not 0;
+      - no CREATE (restore / join) request for the shard is pending anywhere;
+      - an ADD names a NodeHost that exists, carries no data of the shard and is not the address of a member of the
+        shard, and a replica id that has no data anywhere;
+      - a DELETE is not proposed on the NodeHost of the member it removes.
+    Any number of live requests per shard is allowed (the first one applied makes the others stale).  This is the
+    state right after the leader scheduled a membership change (e.g. the DELETE of a dead member, [C01_mendb_inhabited]).
+    For EVERY outcome the scheduler model allows, all shards at once, no premise on spare NodeHosts or on the random
+    source (no ADD can be scheduled from these states, so there is no errNotEnoughNodeHost and no id is drawn):
+      - [C01_heal_stage_change_applied]: a healthy round from MendB - the NodeHosts execute the live requests: each is
+        applied (the membership history grows by one entry IN THE MIDDLE of the execution phase, the proposer knows
+        the new version) or dropped (config change not ready); the leader then schedules from a view that may be behind
+        - ends in MendB with every pending request a harmless leftover or a request for a current member (the live
+        requests that remain are inert copies in Outgoing), the scheduler having answered with a batch of restore,
+        join-CREATE and KILL requests only;
+      - [C01_heal_stage_change_settled]: the next healthy round ends in Mend;
+      - [C01_heal_mendb]: after detect_rounds + 6 healthy rounds the fleet is healed, and stays healed.
+    The execution-level generalisation ("the history changes only by appending one entry for the shard of the
+    executed request; the host-side class holds relative to the NEW history; the pending requests keep a
+    classification relative to it") is FleetMendBProofs.bexec_one / mp_exec_req.
+    MendA ⊆ MendB for states in which only NodeHosts have an Outgoing mailbox ([C01_menda_mendb]; true on every run -
+    Outgoing[a] is written when a reports - but not part of LoopInv). *)
+Theorem C01_menda_mendb : forall st, MendA st -> out_hosts st -> MendB st.
+Proof. exact menda_mendb. Qed.
+Print Assumptions C01_menda_mendb.
+
+Theorem C01_heal_stage_change_applied : forall (P : params) (st st' : fstate) (plogs : N -> bool) (nticks : nat) (o : outcome),
+  MendB st -> (forall a, plogs a = true) -> N.of_nat nticks * p_step P <= p_ttl P ->
+  healthy_round P plogs nticks o st = Some st' ->
+  exists b, o = OBatch b /\ add_ids b = [] /\ MendB st' /\ (forall a q, nonout st' a q -> mharmless (f_hist st') a q).
+Proof. exact mendb_round. Qed.
+Print Assumptions C01_heal_stage_change_applied.
+
+Theorem C01_heal_stage_change_settled : forall (P : params) (st st' : fstate) (plogs : N -> bool) (nticks : nat) (o : outcome),
+  MendB st -> (forall a q, nonout st a q -> mharmless (f_hist st) a q) ->
+  (forall a, plogs a = true) -> N.of_nat nticks * p_step P <= p_ttl P ->
+  healthy_round P plogs nticks o st = Some st' ->
+  exists b, o = OBatch b /\ add_ids b = [] /\ Mend st'.
+Proof. exact mendb_inert_round. Qed.
+Print Assumptions C01_heal_stage_change_settled.
+
+Theorem C01_heal_mendb : forall (P : params) (os : list outcome) (st st' : fstate) (plogs : N -> bool) (nticks : nat),
+  MendB st -> (forall a, plogs a = true) -> N.of_nat nticks * p_step P <= p_ttl P -> (0 < nticks)%nat -> 0 < p_step P ->
+  (detect_rounds P nticks + 6 <= length os)%nat ->
+  healthy_rounds P plogs nticks os st = Some st' ->
+  Mend st' /\ healed P st' = true.
+Proof. exact mendb_heal. Qed.
+Print Assumptions C01_heal_mendb.
 
 (** ** errNotEnoughNodeHost: cause and exclusion, from ANY state of the invariant *)
 (* the cause (decision level, any context): a view entry in the ADD branch of the repair chain has a failed member
@@ -747,4 +801,74 @@ Proof.
   split; [exact (menda_restb_sound st HI4 Hs1)|].
   intros HM. apply mend_view_current in HM. destruct ex_added; [|discriminate Hb]. rewrite HM in Hb.
   rewrite andb_false_r in Hb. discriminate Hb.
+Qed.
+
+(** ** non-vacuity of the change-applied stage (MendB) *)
+Theorem C01_mendb_checked : forall st, LoopInv st -> mendb_restb st = true -> MendB st.
+Proof. exact mendb_restb_sound. Qed.
+Print Assumptions C01_mendb_checked.
+
+(* two states of the logged run, each followed by the restart of NodeHost 1 (so that every NodeHost is up):
+   [ex_add_pending]: right before the ADD of the replacement is executed - two ADD requests with the current fence are
+   pending (the one that will be applied and one of the round before);
+   [ex_del_pending]: after three more rounds (canonical outcomes): the DELETE of the dead member, current fence, pending *)
+Definition ex_add_pending : option fstate :=
+  match ex_launched with Some st0 => steps ex_params st0 (take 50 ex_events ++ [ERestart 1]) | None => None end.
+Definition ex_del_pending : option fstate :=
+  match ex_final with
+  | Some st1 =>
+    match canon_run ex_params (fun _ => true) 2 (fun i _ => 1000 + N.of_nat i) 3 st1 with
+    | Some (_, st2) => steps ex_params st2 [ERestart 1]
+    | None => None
+    end
+  | None => None
+  end.
+
+Example C01_mendb_computed :
+  match ex_launched, ex_add_pending, ex_del_pending with
+  | Some st0, Some sta, Some std =>
+    fresh_runb ex_params st0 (take 50 ex_events ++ [ERestart 1])
+    && mendb_restb sta && negb (menda_restb sta) && (2 <=? length (filter (fun aq => lchangeb sta aq.1 aq.2) (pendingl sta)))%nat
+    && mendb_restb std && negb (menda_restb std) && (1 <=? length (filter (fun aq => lchangeb std aq.1 aq.2) (pendingl std)))%nat
+  | _, _, _ => false
+  end = true.
+Proof. vm_compute. reflexivity. Qed.
+
+(* the bound of C01_heal_mendb from both states, with the scheduler's canonical outcomes *)
+Example C01_mendb_heal_computed :
+  match ex_add_pending, ex_del_pending with
+  | Some sta, Some std =>
+    match canon_run ex_params (fun _ => true) 2 (fun i _ => 4000 + N.of_nat i) (detect_rounds ex_params 2 + 6) sta,
+          canon_run ex_params (fun _ => true) 2 (fun i _ => 5000 + N.of_nat i) (detect_rounds ex_params 2 + 6) std with
+    | Some (osa, sta'), Some (osd, std') =>
+      bool_decide (healthy_rounds ex_params (fun _ => true) 2 osa sta = Some sta') && healed ex_params sta' && mend_restb sta'
+      && bool_decide (healthy_rounds ex_params (fun _ => true) 2 osd std = Some std') && healed ex_params std' && mend_restb std'
+    | _, _ => false
+    end
+  | _, _ => false
+  end = true.
+Proof. vm_compute. reflexivity. Qed.
+
+Example C01_mendb_inhabited :
+  (exists st, ex_add_pending = Some st /\ MendB st) /\ (exists st, ex_del_pending = Some st /\ MendB st).
+Proof.
+  destruct C01_final_inv as (st1 & Ef & HI1).
+  pose proof C01_pipeline_inv_computed as Hp. rewrite Ef in Hp.
+  pose proof C01_mendb_computed as H. unfold ex_add_pending, ex_del_pending in H |- *. rewrite Ef in H |- *.
+  pose proof C01_init_ok_computed as Hinit.
+  destruct ex_launched as [st0|]; [|discriminate H].
+  apply andb_true_iff in Hp as [Hp _]. apply andb_true_iff in Hp as [_ H4].
+  destruct (steps ex_params st0 (take 50 ex_events ++ [ERestart 1])) as [sta|] eqn:Ea; [|discriminate H].
+  destruct (canon_run ex_params (fun _ => true) 2 (fun i _ => 1000 + N.of_nat i) 3 st1) as [[os2 st2]|] eqn:E2; [|discriminate H].
+  destruct (steps ex_params st2 [ERestart 1]) as [std|] eqn:Ed; [|discriminate H].
+  cbv beta iota in H.
+  apply andb_true_iff in H as [H _]. apply andb_true_iff in H as [H _]. apply andb_true_iff in H as [H Hd].
+  apply andb_true_iff in H as [H _]. apply andb_true_iff in H as [H _]. apply andb_true_iff in H as [Hfr Ha].
+  split.
+  - exists sta. split; [reflexivity|]. apply mendb_restb_sound; [|exact Ha].
+    destruct (run_inv ex_params _ st0 (init_inv _ (init_okb_sound _ Hinit)) (fresh_runb_sound _ _ _ Hfr)) as (st' & E' & HI).
+    rewrite Ea in E'. injection E' as <-. exact HI.
+  - exists std. split; [reflexivity|]. apply mendb_restb_sound; [|exact Hd].
+    apply (steps_inv ex_params [ERestart 1] st2 std); [|reflexivity|exact Ed].
+    eapply canon_run_inv; [exact HI1|exact H4|exact E2].
 Qed.
